@@ -66,11 +66,11 @@ TEXT = {
 # what the per-run translator (tools/rs2lean.py, ser_shape.py) regenerates from /repo/src for each property, with a proven
 # equation `generated = model` (or an `rfl` / `decide` obligation) among the property's obligations
 TRANSLATED = {
- "C01": "RankSupport::rank{,_unchecked}, SelectSupport::select_unchecked (scan loop included), BitVector::{len, count_ones, get, rank, select, select_zero, select_iter, select_zero_iter, predecessor, successor, one_iter, zero_iter, iter}, RankSupport::new (both nested loops)",
+ "C01": "RankSupport::rank{,_unchecked}, SelectSupport::select_unchecked (scan loop included), BitVector::{len, count_ones, get, rank, select, select_zero, select_iter, select_zero_iter, predecessor, successor, one_iter, zero_iter, iter}, RankSupport::new (both nested loops), SelectSupport::new (outer `while`, long / short inner loops, the three packs; the two OneIters as the list of their items)",
  "C02": "SparseVector::{split, combine, pos, lower_bound, upper_bound, select, get, rank, predecessor, successor, count_zeros} (bucket scans included), find_zero_run (binary search + scan), select_zero, SparseBuilder::get_buckets",
  "C03": "SampleIndex::{div_round_up, parameters, range}, RLVector::{blocks, ones_after, decode, block_for, iter_for_block, run_iter} (decode loop and binary search included), SampleIndex::new, RunIter::{advance_if (arbitrary closure), next, rank_zero, offset_for, rank_at}, RLVector::{iter_for_bit, iter_for_one, iter_for_zero, get, rank, select, select_iter, zero_iter, select_zero, select_zero_iter, successor, iter, one_iter, count_zeros} (all loops included)",
  "C04": "WMCore::{bit_value, map_down_one, map_down_zero, map_up_one, map_up_zero, map_down, map_down_with, map_down_with_two_positions, map_up_with} (level loops included), WaveletMatrix::{start, contains, rank, select, inverse_select, get}, ValueIter::next, the default VectorIndex::{predecessor, successor}",
- "C05": "RawVector::{bit, int, word, word_unchecked, set_unused_bits, set_bit, set_int, push_bit, push_int, pop_bit, pop_int, resize, count_ones}, IntVector::{new, with_len, get, set, push, pop, clear}",
+ "C05": "RawVector::{bit, int, word, word_unchecked, set_unused_bits, set_bit, set_int, push_bit, push_int, pop_bit, pop_int, resize, count_ones}, IntVector::{new, with_len, get, set, push, pop, clear, pack}",
  "C06": "the field order of serialize_header / serialize_body, the load order and the size_in_elements summands of all 14 `impl Serialize` blocks; the `load` functions of RawVector, IntVector, RankSupport, SelectSupport, BitVector, SparseVector, WaveletMatrix (reader threaded through, every sanity check)",
  "C08": "Identity / Complement ::{bit, word, word_unchecked, count_ones}",
  "C10": "the five methods of ops::AccessIter and of bit_vector::Iter; OneIter<T>::{next, nth, next_back, size_hint} (word scans included); sparse_vector::{OneIter::{next, next_back, size_hint}, ZeroIter::{next_run, next, size_hint}, Iter::{next, next_back, size_hint}} and SparseVector::{one_iter, select_iter, zero_iter, select_zero_iter, iter}; rl_vector::{OneIter, ZeroIter, Iter}::{next, size_hint}",
@@ -90,7 +90,8 @@ def n_translated():
 
 
 # translated but not (yet) tied to the model by a proven equation: not counted, not named in any obligation
-UNPROVEN = ["gen_IntVector_pack", "gen_SelectSupport_new"]
+UNPROVEN = ["gen_RawVector_new", "gen_RawVector_with_len", "gen_BitVector_from_raw", "gen_SparseBuilder_get_params", "gen_SparseBuilder_new",
+            "gen_SparseBuilder_multiset", "gen_SparseVector_try_from"]
 
 
 def main():
